@@ -105,6 +105,7 @@ type History struct {
 	Ops         []Op
 	DropProfile bool // restart with a profile that no longer has the Listeners block
 	ParentDeath bool // ends with the death of a direct agent that has one linked child
+	LateParent  bool // ends with a pivot child taken over by a direct agent that registered after it
 }
 
 // ---------------------------------------------------------------------------------------
@@ -291,6 +292,12 @@ func genHistory(seed int64, idx int, thorough bool) *History {
 	h := &History{Idx: idx}
 	hostile := []int{0, 35, 70}[idx%3]
 	nDirect := 2 + r.Intn(2)
+	// every third history keeps one direct agent back: it registers at the very end and takes
+	// over a pivot child that has been in the database for longer than itself
+	lateParent := idx%3 == 2
+	if lateParent {
+		nDirect = 3
+	}
 	nSmb := 1 + r.Intn(3)
 	h.Agents = genAgents(r, nDirect, nSmb, hostile)
 	if idx%3 != 0 {
@@ -448,6 +455,9 @@ func genHistory(seed int64, idx int, thorough bool) *History {
 				inactive = append(inactive, i)
 			}
 		}
+		if lateParent && len(unregDirect) > 0 {
+			unregDirect = unregDirect[:len(unregDirect)-1] // the last direct agent is kept back
+		}
 		via := func(i int) int {
 			p := sim.parentOf(h.Agents[i].Name())
 			if p == "" {
@@ -570,6 +580,33 @@ func genHistory(seed int64, idx int, thorough bool) *History {
 			if len(lstLive) > 0 {
 				add(Op{K: "ldel", L: pick(lstLive), Via: -1})
 			}
+		}
+	}
+	if lateParent {
+		late, kid, parent := -1, -1, -1
+		var freeKids []int
+		for i := range h.Agents {
+			a := &h.Agents[i]
+			m := sim.Agents[a.Name()]
+			switch {
+			case m == nil && !a.Smb:
+				late = i
+			case m == nil && a.Smb:
+				freeKids = append(freeKids, i)
+			case m != nil && m.Active && a.Smb && sim.parentOf(a.Name()) != "":
+				kid = i
+			case m != nil && m.Active && !a.Smb && parent < 0:
+				parent = i
+			}
+		}
+		if late >= 0 && kid < 0 && parent >= 0 && len(freeKids) > 0 {
+			kid = freeKids[0]
+			add(Op{K: "connect", A: parent, B: kid, Via: -1})
+		}
+		if late >= 0 && kid >= 0 && sim.Agents[h.Agents[kid].Name()] != nil {
+			add(Op{K: "reg", A: late, Via: -1})
+			add(Op{K: "connect", A: late, B: kid, Via: -1})
+			h.LateParent = true
 		}
 	}
 	if idx%3 == 1 {
